@@ -117,6 +117,10 @@ def first_ipchub_frame(txt):
         return None, None
     head = m.group(1).strip()[:160]
     rest = txt[m.end():]
+    # only the panicking goroutine's own stack (first goroutine block) decides whether ipchub crashed
+    g = re.search(r"^goroutine \d+ \[running\]:\n(.*?)(?:\n\n|\Z)", rest, re.S | re.M)
+    if g:
+        rest = g.group(1)
     fm = re.search(r"^(github\.com/cnotch/ipchub/\S+)\(", rest, re.M)
     frame = fm.group(1).replace("github.com/cnotch/ipchub/", "") if fm else "no-ipchub-frame"
     frame = re.sub(r"\.func\d+(\.\d+)*", "", frame)
